@@ -9,6 +9,7 @@ CONSTANTS
   Extra <- NoExtra
   GFirst = TRUE
   SelDet = FALSE
+  LogOn = TRUE
 VIEW View
 INVARIANT TypeOK
 INVARIANT Exclusion
